@@ -58,9 +58,9 @@ class S(V):
 
 
 class R(V):
-    def __init__(self, kind: str, **fields: Any) -> None:
-        self.kind = kind
-        self.fields = fields
+    def __init__(_self, _kind: str, **fields: Any) -> None:  # noqa: N805 - `kind`/`self` may be field names
+        _self.kind = _kind
+        _self.fields = fields
 
     def replace(self, **kw: Any) -> "R":
         f = dict(self.fields)
@@ -481,6 +481,11 @@ class Interp:
             if meth == "isdisjoint":
                 return None
             return None
+        if isinstance(fval, R) and fval.kind == "dict" and meth == "get" and args:
+            for k, v in fval.fields["items"]:
+                if k == args[0]:
+                    return v
+            return args[1] if len(args) > 1 else K(None)
         if isinstance(fval, R) and fval.kind == "dict" and meth in ("items", "keys", "values") and not args:
             it = fval.fields["items"]
             if meth == "items":
@@ -501,6 +506,12 @@ class Interp:
             return None
         if fname == "dict" and not args and not kwargs:
             return st.alloc("dict", {})
+        if fname == "enumerate" and 1 <= len(args) <= 2:
+            seq = self.iterate(args[0], st)
+            start = args[1].v if len(args) == 2 and isinstance(args[1], K) else 0
+            if seq is not None:
+                return K(tuple(K((K(i + start), x)) for i, x in enumerate(seq)))
+            return None
         if fname in ("chain", "itertools.chain"):
             out: List[V] = []
             for a in args:
